@@ -1,5 +1,6 @@
 import MosnVerif.Drive.Util
 import MosnVerif.Model.UpdatesSpec
+import MosnVerif.Model.DumpProto
 /-!
 Driver for C12. Case line: `hist <op> …` (one token per operation, fields separated by `/`), implementation output:
 `<results> <liveRouters> <rebuiltRouters> <liveClusters> <rebuiltClusters>` (see harness/c12/c12.go).
@@ -191,9 +192,66 @@ def hist (opToks impl : List String) : String :=
     | _, _, _, _, _, _, _ => "E E bad-impl-output"
   | _, _ => "E E bad-case"
 
+def dashList (sep : String) (s : String) : List String := if s == "-" || s.isEmpty then [] else s.splitOn sep
+def renderDash (sep : String) (l : List String) : String := if l.isEmpty then "-" else joinWith sep l
+
+/-- `rm <m|a> <hosts> <addrs>`: ONE `RemoveClusterHosts` (m) / `TriggerHostDel` (a) call with the listed addresses on cluster `c`
+holding `hosts`; implementation output `<ok|err> <live addrs> <stored addrs> <listed addresses still served>`. -/
+def rm (hostsTok addrsTok : String) (impl : List String) : String :=
+  match (dashList "," hostsTok).mapM parseHost, impl with
+  | some hosts, [res, live, stored, served] =>
+    let addrs := dashList "," addrsTok
+    let mob := rmObserve stdOracle hosts addrs
+    let mout := s!"{okTok mob.ok} {renderDash "+" mob.live} {renderDash "+" mob.stored} {renderDash "+" mob.served}"
+    let iob : Spec.RmObs := ⟨res == "ok", dashList "+" live, dashList "+" stored, dashList "+" served⟩
+    let agree := s!"{res} {live} {stored} {served}" == mout
+    let spec := (res == "ok" || res == "err") && Spec.rmHolds (hosts.map (·.addr)) addrs iob
+    s!"{if agree then "A" else "D"} {if spec then "S" else "V"} {mout}"
+  | _, _ => "E E bad-rm-case"
+
+/-! `dump <item> …`: a script of updates (`U`) and dump rounds (`R<n|a|b><o|f>`: an update injected nowhere / right before the
+snapshot / right after it — if the round gets there; file write ok / failing), run on the real `DumpConfig` with `auto_config` on.
+Implementation output: one token `file/live/wanted` per round (versions read from the dumped file and from the effective
+config, `wanted` = the dump flag). -/
+namespace Dump
+open MosnVerif.Model.DumpProto
+
+def parseItem (s : String) : Option Item :=
+  match s.toList with
+  | ['U'] => some .update
+  | ['R', p, w] => do
+    let pt ← if p == 'n' then some Point.none else if p == 'a' then some Point.beforeSnap else if p == 'b' then some Point.afterSnap else none
+    let ok ← if w == 'o' then some true else if w == 'f' then some false else none
+    pure (.round pt ok)
+  | _ => none
+
+def parseObs (s : String) : Option RoundObs :=
+  match s.splitOn "/" with
+  | [f, l, w] => do
+    let f ← f.toNat?
+    let l ← l.toNat?
+    let w ← if w == "1" then some true else if w == "0" then some false else none
+    pure ⟨f, l, w⟩
+  | _ => none
+
+def renderObs (o : RoundObs) : String := s!"{o.file}/{o.live}/{if o.wanted then "1" else "0"}"
+
+def drive (itemToks impl : List String) : String :=
+  match itemToks.mapM parseItem, (if impl == ["-"] then some [] else impl.mapM parseObs) with
+  | some items, some iobs =>
+    let mobs := runScript (initConf MosnVerif.Gen.DumpProto.dumpConfig MosnVerif.Gen.DumpProto.setDump) items
+    let mout := if mobs.isEmpty then "-" else joinWith " " (mobs.map renderObs)
+    let agree := mobs == iobs
+    let spec := MosnVerif.Model.DumpProto.Spec.dumpHolds items iobs
+    s!"{if agree then "A" else "D"} {if spec then "S" else "V"} {mout}"
+  | _, _ => "E E bad-dump-case"
+end Dump
+
 def run (caseToks impl : List String) : String :=
   match caseToks with
   | "hist" :: ops => hist ops impl
+  | "dump" :: items => Dump.drive items impl
+  | ["rm", _, hs, as] => rm hs as impl
   -- support run: lookups concurrent with updates must have seen only whole configurations
   | ["conc", _, _] => if impl == ["ok"] then "A S ok" else "D V ok"
   | _ => "E E unknown-kind"
